@@ -44,9 +44,10 @@ def run_vc(pid, spec, tier, verbose):
         if q in missing:
             continue
         c = contracts[q]
-        if c.params is None:
+        if c.params is None and getattr(c, 'lemma', None) is None:
             continue
         rep, goals = verify.verify_contract(c, world, pool='fork' if os.environ.get('PYVC_EXPLORE') != 'replay' else None)
+        rep.canary = bool(getattr(c, 'canary', False))
         reports.append(rep)
         pending.extend(goals)
         if verbose:
@@ -59,8 +60,16 @@ def run_vc(pid, spec, tier, verbose):
     out = {'functions': [], 'obligations': 0, 'discharged': 0, 'failed': [], 'unknown': [], 'undecided': [],
            'errors': [], 'missing_contracts': missing, 'explore_s': round(t_explore, 2), 'solve_s': round(t_solve, 2),
            'solver_time_max_s': 0.0, 'solver_time_total_s': 0.0, 'by_solver': {}, 'samples': []}
+    out['canaries'] = []
     for rep in reports:
         n, d, f, u = rep.counts()
+        if rep.canary:
+            # a statement that must be refuted: success here would mean vacuous hypotheses
+            out['canaries'].append({'canary': rep.qualname, 'refuted': bool(f)})
+            if not f:
+                out['errors'].append('canary %s was not refuted (vacuity guard)' % rep.qualname)
+            out['errors'].extend('%s: %s' % (rep.qualname, x) for x in rep.errors)
+            continue
         out['functions'].append({'function': rep.qualname, 'source_sha256_16': rep.source_hash, 'paths': rep.paths,
                                  'obligations': n, 'discharged': d})
         out['obligations'] += n
